@@ -126,14 +126,24 @@ func runC10(c *Ctx) {
 		}
 		c.Cut(CutSpec{Rule: "R-OWN", Fn: fn, Label: "edge.issuer = n behind CheckSignatureFromKey(n.key, edge cert) == nil [" + Expr(e) + "]", Target: isInstr(wr.In), Cut: IsNil(guard)})
 		// name agreement
-		dn, de := Deps(n), Deps(e)
+		// (a block moved into a single-use helper is read in the context of its only call site)
+		var dn, de map[string]bool
+		isNewInCtx := false
+		w.inCallerContext(fn, func() {
+			dn, de = Deps(n), Deps(e)
+			for v := range backClosure(n, nil) {
+				if al, ok := v.(*ssa.Alloc); ok && strings.Contains(typeStr(al.Type()), "GraphNode") {
+					isNewInCtx = true
+				}
+			}
+		})
 		viaSubject := hasAll(dn, "field:Graph.nodesBySubject", "field:Certificate.RawIssuer") && hasNone(dn, "field:Certificate.RawSubject")
 		viaMissing := hasAll(de, "field:Graph.missingIssuerNode", "field:Certificate.RawSubject") && hasNone(de, "field:Certificate.RawIssuer")
 		c.Check(viaSubject || viaMissing, "R-PROV", name, "issuer node and edge agree on the name (nodesBySubject[RawIssuer] or missingIssuerNode[RawSubject]) ["+Expr(e)+"]", pos,
 			"node: "+depList(dn)+" ; edge: "+depList(de))
 		if viaMissing {
 			// the node must be the one created for c in this call (has c's subject)
-			isNew := false
+			isNew := isNewInCtx
 			for v := range backClosure(n, nil) {
 				if al, ok := v.(*ssa.Alloc); ok && strings.Contains(typeStr(al.Type()), "GraphNode") {
 					isNew = true
